@@ -94,3 +94,160 @@ package dastard
 //@     invariant expect: snexpect == QFirst(group) + len(newq)
 //@     invariant kept: forall k int :: {at(group.queue, k)} group.queue.off <= k && k < group.queue.off + rangeindex ==> QFirst(group) <= seqnum(at(group.queue, k)) && seqnum(at(group.queue, k)) - QFirst(group) < len(newq) && at(newq, newq.off + seqnum(at(group.queue, k)) - QFirst(group)) == at(group.queue, k)
 //@     invariant same: packetsAdded == 0 ==> (forall k int :: {at(group.queue, k)} group.queue.off <= k && k < group.queue.off + len(newq) ==> at(group.queue, k) == at(newq, newq.off + k - group.queue.off))
+
+// ---- demultiplexing ----
+// element (frame a, channel c) of a frame-major payload of b frames x n channels lies inside the payload
+// mul is multiplication, kept opaque in the function proofs (its facts come from the two lemmas below, which are proved with the definition)
+//@ define mul(a int, b int) int := a * b
+//@ lemma mulstep C03 C04: forall a int, n int :: {mul(a + 1, n)} mul(a + 1, n) == mul(a, n) + n
+//@ lemma mulzero C03 C04: forall n int :: {mul(0, n)} mul(0, n) == 0
+//@ lemma frameindex C03 C04: forall a int, b int, c int, n int :: 0 <= a && a < b && 0 <= c && c < n ==> c + mul(a, n) < mul(b, n) && c + mul(a, n) >= 0
+
+//@ ufunc pnchan(p *packets.Packet) int
+//@ ufunc poffset(p *packets.Packet) int
+//@ extern func (*github.com/usnistgov/dastard/packets.Packet).ChannelInfo
+//@   pure
+//@   ensures nchan == pnchan(p) && offset == poffset(p)
+//@ func gIndex
+//@   props C03
+//@   requires p != nil
+//@   ensures result.Firstchan == poffset(p) && result.Nchan == pnchan(p)
+//@   modifies nothing
+
+// PayloadOK: every queued packet belongs to this group and carries a 16- or 32-bit payload of
+// exactly (frames x channels) values.
+//@ pred PayloadOK(g *AbacoGroup) := forall p int :: {at(g.queue, p)} g.queue.off <= p && p < g.queue.off + len(g.queue) ==>
+//@        poffset(at(g.queue, p)) == g.index.Firstchan && pnchan(at(g.queue, p)) == g.index.Nchan && pframes(at(g.queue, p)) >= 0
+//@        && ((typeis(at(g.queue, p).Data, "[]int16") && allocated(unbox(at(g.queue, p).Data, "[]int16")) && len(unbox(at(g.queue, p).Data, "[]int16")) / g.nchan == pframes(at(g.queue, p)) && len(unbox(at(g.queue, p).Data, "[]int16")) == mul(pframes(at(g.queue, p)), g.nchan))
+//@         || (typeis(at(g.queue, p).Data, "[]int32") && allocated(unbox(at(g.queue, p).Data, "[]int32")) && len(unbox(at(g.queue, p).Data, "[]int32")) / g.nchan == pframes(at(g.queue, p)) && len(unbox(at(g.queue, p).Data, "[]int32")) == mul(pframes(at(g.queue, p)), g.nchan)))
+
+//@ func (*AbacoGroup).countSamplesInQueue
+//@   props C03
+//@   requires QOK(group) && PayloadOK(group) && group.nchan > 0
+//@   ensures result >= 0
+//@   modifies nothing
+//@   loop 1
+//@     invariant -1 <= rangeindex && rangeindex <= len(group.queue) - 1 && valuesFound >= 0
+
+//@ ghost field AbacoGroup.qoff intmap
+//@ ghost field AbacoGroup.ntake mathint
+
+// QOff: qoff[p] = number of frames in the queued packets before queue position p (prefix sums).
+//@ pred QOff(g *AbacoGroup) := g.qoff[g.queue.off] == 0 && (forall p int :: {at(g.queue, p)} g.queue.off <= p && p < g.queue.off + len(g.queue) ==> g.qoff[p + 1] == g.qoff[p] + pframes(at(g.queue, p)))
+//@     && (forall a int, b int :: {g.qoff[a], g.qoff[b]} g.queue.off <= a && a <= b && b <= g.queue.off + len(g.queue) ==> g.qoff[a] <= g.qoff[b])
+// UnwrapOK: one valid unwrapper per channel, all distinct.
+//@ pred UnwrapOK(g *AbacoGroup) := len(g.unwrap) == g.nchan && allocated(g.unwrap)
+//@     && (forall p int :: {at(g.unwrap, p)} g.unwrap.off <= p && p < g.unwrap.off + len(g.unwrap) ==> at(g.unwrap, p) != nil && allocated(at(g.unwrap, p)) && InvU(at(g.unwrap, p)) && (at(g.unwrap, p).enable && at(g.unwrap, p).lowBitsToDrop > 0 ==> MaskOK(at(g.unwrap, p))))
+//@     && (forall p int, q int :: {at(g.unwrap, p), at(g.unwrap, q)} g.unwrap.off <= p && p < q && q < g.unwrap.off + len(g.unwrap) ==> at(g.unwrap, p) != at(g.unwrap, q))
+// BuffersOK: one output buffer per channel, long enough, pairwise distinct.
+//@ pred BuffersOK(dc [][]RawType, n int, frames int) := len(dc) == n && allocated(dc)
+//@     && (forall p int :: {at(dc, p)} dc.off <= p && p < dc.off + len(dc) ==> allocated(at(dc, p)) && len(at(dc, p)) >= frames && at(dc, p).arr != 0)
+//@     && (forall p int, q int :: {at(dc, p), at(dc, q)} dc.off <= p && p < q && q < dc.off + len(dc) ==> at(dc, p).arr != at(dc, q).arr)
+
+//@ func (*AbacoGroup).demuxData$1
+//@   props C03
+//@   requires up != nil && dc != nil && allocated(*dc) && InvU(up) && (up.enable && up.lowBitsToDrop > 0 ==> MaskOK(up))
+//@   ensures InvU(up) && len(*dc) == old(len(*dc)) && (*dc).arr == old((*dc).arr) && (*dc).off == old((*dc).off)
+//@   ensures config: unchanged(up.twoPi, up.upperStepLim, up.lowerStepLim, up.resetAfter, up.resetOffset, up.signMask, up.lowBitsToDrop, up.enable, up.invertData)
+//@   modifies up.lastVal, up.offset, up.resetCount, up.gcnt, up.goff, (*dc)[*]
+
+// demuxData: the first ntake queued packets hold exactly `frames` frames; they are removed from the
+// queue (the rest stays, in order), every buffer keeps its length, every unwrapper stays valid.
+//@ func (*AbacoGroup).demuxData
+//@   props C03
+//@   opt forkjoin
+//@   uses mulzero
+//@   requires QOK(group) && PayloadOK(group) && QOff(group) && UnwrapOK(group) && group.nchan > 0 && BuffersOK(datacopies, group.nchan, frames) && frames >= 0
+//@   requires boundary: 0 <= group.ntake && group.ntake <= len(group.queue) && frames == group.qoff[group.queue.off + group.ntake]
+//@        && (group.ntake < len(group.queue) ==> pframes(at(group.queue, group.queue.off + group.ntake)) > 0)
+//@   ensures advanced: group.queue.arr == old(group.queue.arr) && group.queue.off == old(group.queue.off) + group.ntake && len(group.queue) == old(len(group.queue)) - group.ntake
+//@   ensures kept: forall p int :: {at(group.queue, p)} group.queue.off <= p && p < group.queue.off + len(group.queue) ==> at(group.queue, p) == oldat(group.queue, p)
+//@   ensures buffers: BuffersOK(datacopies, group.nchan, frames) && UnwrapOK(group)
+//@   panics_if false
+//@   modifies group.queue, any(PhaseUnwrapper).lastVal, any(PhaseUnwrapper).offset, any(PhaseUnwrapper).resetCount, any(PhaseUnwrapper).gcnt, any(PhaseUnwrapper).goff, anyarray(RawType)
+//@   loop 1
+//@     invariant -1 <= rangeindex && rangeindex <= len(group.queue) - 1 && unchanged(group.queue, group.nchan, group.index, group.unwrap, group.ntake) && nchan == group.nchan && QOK(group) && PayloadOK(group) && QOff(group) && UnwrapOK(group) && BuffersOK(datacopies, group.nchan, old(frames)) && unchanged(datacopies)
+//@     invariant progress: packetsConsumed == rangeindex + 1 && packetsConsumed <= group.ntake && samplesConsumed == group.qoff[group.queue.off + packetsConsumed] && frames == old(frames) - samplesConsumed && frames >= 0 && totalBytes >= 0 && samplesConsumed >= 0
+//@   loop 2
+//@     invariant 0 <= rangeindex1 && rangeindex1 < len(group.queue) && unchanged(group.queue, group.nchan, group.index, group.unwrap, group.ntake) && nchan == group.nchan && QOK(group) && PayloadOK(group) && QOff(group) && UnwrapOK(group) && BuffersOK(datacopies, group.nchan, old(frames)) && unchanged(datacopies)
+//@     invariant cur: p == at(group.queue, group.queue.off + rangeindex1) && typeis(p.Data, "[]int16") && d == unbox(p.Data, "[]int16") && nsamp == pframes(p) && nsamp == len(d) / nchan && frameAvail == pframes(p)
+//@     invariant progress: packetsConsumed == rangeindex1 + 1 && packetsConsumed <= group.ntake && samplesConsumed == group.qoff[group.queue.off + rangeindex1] && frames == old(frames) - samplesConsumed - nsamp && frames >= 0 && totalBytes >= 0 && samplesConsumed >= 0
+//@     invariant chan: -1 <= rangeindex2 && rangeindex2 <= len(datacopies) - 1
+//@   loop 3
+//@     invariant 0 <= rangeindex1 && rangeindex1 < len(group.queue) && unchanged(group.queue, group.nchan, group.index, group.unwrap, group.ntake) && nchan == group.nchan && QOK(group) && PayloadOK(group) && QOff(group) && UnwrapOK(group) && BuffersOK(datacopies, group.nchan, old(frames)) && unchanged(datacopies)
+//@     invariant cur: p == at(group.queue, group.queue.off + rangeindex1) && typeis(p.Data, "[]int16") && d == unbox(p.Data, "[]int16") && nsamp == pframes(p) && nsamp == len(d) / nchan && frameAvail == pframes(p)
+//@     invariant progress: packetsConsumed == rangeindex1 + 1 && packetsConsumed <= group.ntake && samplesConsumed == group.qoff[group.queue.off + rangeindex1] && frames == old(frames) - samplesConsumed - nsamp && frames >= 0 && totalBytes >= 0 && samplesConsumed >= 0
+//@     invariant chan: 0 <= rangeindex2 && rangeindex2 < len(datacopies) && idx == rangeindex2 && dc == at(datacopies, datacopies.off + idx) && 0 <= i && i <= nsamp && j == idx + mul(i, nchan) && len(dc) >= old(frames) && allocated(dc) && samplesConsumed + nsamp <= old(frames) && samplesConsumed >= 0 && len(d) == mul(nsamp, nchan) && allocated(d)
+//@     apply frameindex(i, nsamp, idx, nchan) && mulstep(i, nchan)
+//@   loop 4
+//@     invariant 0 <= rangeindex1 && rangeindex1 < len(group.queue) && unchanged(group.queue, group.nchan, group.index, group.unwrap, group.ntake) && nchan == group.nchan && QOK(group) && PayloadOK(group) && QOff(group) && UnwrapOK(group) && BuffersOK(datacopies, group.nchan, old(frames)) && unchanged(datacopies)
+//@     invariant cur: p == at(group.queue, group.queue.off + rangeindex1) && typeis(p.Data, "[]int32") && d == unbox(p.Data, "[]int32") && nsamp == pframes(p) && nsamp == len(d) / nchan && frameAvail == pframes(p)
+//@     invariant progress: packetsConsumed == rangeindex1 + 1 && packetsConsumed <= group.ntake && samplesConsumed == group.qoff[group.queue.off + rangeindex1] && frames == old(frames) - samplesConsumed - nsamp && frames >= 0 && totalBytes >= 0 && samplesConsumed >= 0
+//@     invariant chan: -1 <= rangeindex4 && rangeindex4 <= len(datacopies) - 1
+//@   loop 5
+//@     invariant 0 <= rangeindex1 && rangeindex1 < len(group.queue) && unchanged(group.queue, group.nchan, group.index, group.unwrap, group.ntake) && nchan == group.nchan && QOK(group) && PayloadOK(group) && QOff(group) && UnwrapOK(group) && BuffersOK(datacopies, group.nchan, old(frames)) && unchanged(datacopies)
+//@     invariant cur: p == at(group.queue, group.queue.off + rangeindex1) && typeis(p.Data, "[]int32") && d == unbox(p.Data, "[]int32") && nsamp == pframes(p) && nsamp == len(d) / nchan && frameAvail == pframes(p)
+//@     invariant progress: packetsConsumed == rangeindex1 + 1 && packetsConsumed <= group.ntake && samplesConsumed == group.qoff[group.queue.off + rangeindex1] && frames == old(frames) - samplesConsumed - nsamp && frames >= 0 && totalBytes >= 0 && samplesConsumed >= 0
+//@     invariant chan: 0 <= rangeindex4 && rangeindex4 < len(datacopies) && idx == rangeindex4 && dc == at(datacopies, datacopies.off + idx) && 0 <= i && i <= nsamp && j == idx + mul(i, nchan) && len(dc) >= old(frames) && allocated(dc) && samplesConsumed + nsamp <= old(frames) && samplesConsumed >= 0 && len(d) == mul(nsamp, nchan) && allocated(d)
+//@     apply frameindex(i, nsamp, idx, nchan) && mulstep(i, nchan)
+//@   loop 6
+//@     invariant -1 <= rangeindex && rangeindex <= len(group.unwrap) - 1 && UnwrapOK(group) && BuffersOK(datacopies, group.nchan, old(frames)) && unchanged(datacopies, group.unwrap, group.nchan)
+//@     invariant queue: group.queue.arr == old(group.queue.arr) && group.queue.off == old(group.queue.off) + group.ntake && len(group.queue) == old(len(group.queue)) - group.ntake && unchanged(group.ntake)
+
+// ---- block assembly ----
+//@ func roundint
+//@   trusted
+//@ func (*AbacoSource).extractExternalTriggers
+//@   trusted
+//@   ensures allocated(result)
+//@   modifies as.eTrigPackets
+
+// One channel of the block: segment channelIndex views buffer channelIndex, starts at the source's
+// running frame number and carries the dropped-frame count of this tick.
+//@ func (*AbacoSource).distributeData$1
+//@   props C03
+//@   requires as != nil && block != nil && allocated(block.segments) && allocated(datacopies) && 0 <= channelIndex && channelIndex < len(datacopies) && channelIndex < len(block.segments)
+//@   ensures seg: at(block.segments, block.segments.off + channelIndex).rawData == at(datacopies, datacopies.off + channelIndex)
+//@        && at(block.segments, block.segments.off + channelIndex).firstFrameIndex == as.nextFrameNum && at(block.segments, block.segments.off + channelIndex).framesPerSample == 1
+//@        && at(block.segments, block.segments.off + channelIndex).droppedFrames == buffersMsg.droppedFrames && at(block.segments, block.segments.off + channelIndex).signed
+//@        && at(block.segments, block.segments.off + channelIndex).framePeriod == as.samplePeriod && at(block.segments, block.segments.off + channelIndex).firstTime == firstTime
+//@        && block.nSamp == len(at(datacopies, datacopies.off + channelIndex))
+//@   ensures others: forall p int :: {at(block.segments, p)} block.segments.off <= p && p < block.segments.off + len(block.segments) && p != block.segments.off + channelIndex ==>
+//@        unchanged(at(block.segments, p).rawData, at(block.segments, p).firstFrameIndex, at(block.segments, p).framesPerSample, at(block.segments, p).droppedFrames, at(block.segments, p).signed, at(block.segments, p).framePeriod, at(block.segments, p).firstTime)
+//@   modifies block.segments[*].*, block.nSamp
+
+// distributeData: every channel gets a segment of the same length (the buffers' common length),
+// all start at the running frame number, which then advances by exactly that length: block
+// frame numbers are contiguous; the dropped-frame count is copied to every segment.
+//@ func (*AbacoSource).distributeData
+//@   props C03
+//@   opt forkjoin
+//@   requires as != nil && allocated(buffersMsg.datacopies) && len(buffersMsg.datacopies) > 0
+//@   requires equal: forall p int :: {at(buffersMsg.datacopies, p)} buffersMsg.datacopies.off <= p && p < buffersMsg.datacopies.off + len(buffersMsg.datacopies) ==> allocated(at(buffersMsg.datacopies, p)) && len(at(buffersMsg.datacopies, p)) == len(at(buffersMsg.datacopies, buffersMsg.datacopies.off))
+//@   ensures block: result != nil && fresh(result) && len(result.segments) == len(buffersMsg.datacopies) && fresh(result.segments) && result.err == nil
+//@   ensures segments: forall p int :: {at(result.segments, p)} result.segments.off <= p && p < result.segments.off + len(result.segments) ==>
+//@        at(result.segments, p).rawData == at(buffersMsg.datacopies, buffersMsg.datacopies.off + p - result.segments.off) && len(at(result.segments, p).rawData) == len(at(buffersMsg.datacopies, buffersMsg.datacopies.off))
+//@        && at(result.segments, p).firstFrameIndex == old(as.nextFrameNum) && at(result.segments, p).framesPerSample == 1 && at(result.segments, p).droppedFrames == buffersMsg.droppedFrames
+//@   ensures contiguous: as.nextFrameNum == old(as.nextFrameNum) + len(at(buffersMsg.datacopies, buffersMsg.datacopies.off))
+//@   modifies as.nextFrameNum, as.eTrigPackets
+//@   loop 1
+//@     invariant 0 <= channelIndex && channelIndex <= nchan && nchan == len(datacopies) && datacopies == buffersMsg.datacopies && block != nil && fresh(block) && len(block.segments) == nchan && fresh(block.segments) && allocated(block.segments) && unchanged(as.nextFrameNum) && framesUsed == len(at(datacopies, datacopies.off)) && block.err == nil
+//@     invariant done: forall p int :: {at(block.segments, p)} block.segments.off <= p && p < block.segments.off + channelIndex ==>
+//@        at(block.segments, p).rawData == at(datacopies, datacopies.off + p - block.segments.off) && at(block.segments, p).firstFrameIndex == as.nextFrameNum && at(block.segments, p).framesPerSample == 1 && at(block.segments, p).droppedFrames == buffersMsg.droppedFrames
+//@     modifies block.segments[*].*, block.nSamp
+
+// ---- packets enter the per-group queues ----
+// A packet arriving "in sequence order" is later than everything its group has seen.
+//@ pred Later(g *AbacoGroup, p *packets.Packet) := p != nil && allocated(p) && 0 <= seqnum(p) && seqnum(p) < 4294967295 && seqnum(p) > g.lastSN
+//@     && (forall q int :: {at(g.queue, q)} g.queue.off <= q && q < g.queue.off + len(g.queue) ==> seqnum(p) > seqnum(at(g.queue, q)))
+
+//@ func (*AbacoGroup).enqueuePacket
+//@   props C03
+//@   requires QOK(group) && QInv(group) && Later(group, p)
+//@   ensures ok: QOK(group) && QInv(group) && group.nleft == old(group.nleft) && len(group.queue) == old(len(group.queue)) + 1 && at(group.queue, group.queue.off + len(group.queue) - 1) == p
+//@   ensures kept: forall q int :: {oldat(old(group.queue), q)} old(group.queue.off) <= q && q < old(group.queue.off + len(group.queue)) ==> at(group.queue, group.queue.off + q - old(group.queue.off)) == oldat(old(group.queue), q)
+//@   modifies group.queue, group.queue[*], group.lasttime
+
+//@ func (*AbacoGroup).updateFrameTiming
+//@   trusted
+//@   modifies group.LastFirmwareTimestamp, group.LastSubframeCount, group.TimestampCountsPerSubframe
